@@ -52,7 +52,7 @@ CHECKS = {
          "the stream-parser model) outside the stale reserved masks, the transcription of Bundle::validate returns no error iff the rule list of the "
          "property text (raw bit tests, NoDup block numbers, at-most-once singleton types, payload present, status-report restriction, creation-time-zero "
          "rule) holds; K-val channel on bytes of the Python reference encoder over the rule space with a Python transcription of the rules as oracle. "
-         "C07_tie_block_flags / C07_tie_bundle_flags: the flag validations of the compiled crate on every u8 block flag word and every combination of the 14 "
+         "C07_tie_block_flags / C07_tie_bundle_flags: Bundle::validate of the compiled crate on an otherwise valid bundle with every u8 block flag word and every combination of the 14 "
          "bundle flag bits (tables regenerated from /repo on every run) equal the model's, outside the don't-care masks - kernel-checked over all rows; "
          "C07_tie_rule_space: Bundle::validate of the compiled crate on EVERY bundle of the block-list part of the property's finite rule space (8 contexts x 27931 "
          "lists of up to 3 blocks, 223448 rows) accepts exactly when the model does.",
@@ -64,8 +64,9 @@ CHECKS = {
          "cross product for age/residence/lifetime/creation/now under the clock hook, debug and release builds. C08_code_structure: the function written the "
          "way bundle.rs writes it (block selected by extension_block_by_type_mut, then hop_count_get/_increase/_exceeded, previous_node_update, "
          "bundle_age_get/_update applied in place: Model/Api.v) equals the function those theorems are about; both models answer the same lines (OPS / OPSA). "
-         "C08_tie_hop_count: for EVERY (limit, count) in u8 x u8 the compiled crate's hop_count_increase/_exceeded/_get (table regenerated from /repo on every "
-         "run, Gen/Tbl_<NAME>.v) equal the model's - kernel-checked over all 65536 rows.",
+         "C08_tie_hop_count: for EVERY (limit, count) in u8 x u8 the compiled crate's Bundle::update_extensions on a bundle carrying that hop count block (table "
+         "regenerated from /repo on every run, Gen/Tbl_HOP.v) returns what the model returns, with the model's count when true and never a lower count when false - "
+         "kernel-checked over all 65536 rows.",
          "clock >= 2000-01-01 (dtn_time_now); std Duration::as_millis.", "DESIGN.md section 6 C08"),
  "C09": ("Coq theorems C09_unique / C09_unique_from / C09_complete / C09_sequential*: NoDup of returned (time, seq) pairs for every number of threads, calls, "
          "clock readings and every interleaving of the instrumented operations (invariant over the schedule), plus the non-overlapping clause; "
@@ -105,8 +106,8 @@ CHECKS = {
 "C11_constructors_valid (every new_*_block call with in-range arguments is an admissible argument and passes extension validation), "
 "C11_primary_builder (refuses exactly the null destination, copies every field), C11_std_bundle_api (the unwrap inside new_std_payload_bundle), "
 "C11_block_ops (laws of hop_count_increase / bundle_age_update / previous_node_update and their getters); K-api channel: each of these functions "
-"with every setter called or not, against the model and against what the function documents. C11_tie_crc_code: set_crc_type on EVERY u8 code, read "
-"back through crc_type/has_crc/bytes, equals the model's crc_of_type (table regenerated from the compiled crate on every run).",
+"with every setter called or not, against the model and against what the function documents. C11_tie_crc_code: Bundle::set_crc(k) followed by Bundle::to_cbor "
+"for EVERY u8 code k emits the bytes the model emits (table regenerated from the compiled crate on every run).",
 "start state must be inside the C01 domain extended to unknown CRC types (validate alone accepts CanonicalData::Unknown under a known block type, which does not round-trip: "
 "C11_ex_unknown_typed); admissible arguments = Model/OpSeq.v op_ok; clock >= 2000-01-01.", "DESIGN.md section 6 C11"),
  "C12": ("Coq theorems C12_record_roundtrip (every normal-form administrative record — status reports with any number of status items of the three "
